@@ -68,21 +68,40 @@ func init() {
 		c18LibraryIsSilent(c)
 		c18ArgumentCounts(c)
 	}
-	extras["C16"] = c16Backtracking
-	extras["C13"] = c13VerbatimNames
+	extras["C16"] = func(c *Ctx) {
+		c16Backtracking(c)
+		c16RuntimeConstants(c)
+	}
+	extras["C13"] = func(c *Ctx) {
+		c13VerbatimNames(c)
+		c.Borrow("C18", "C18.W2", "C13.Q7", "the command-line front end prints the report as an operand, never as a format string (a % in a name or message would be interpreted)", 3, nil)
+		c.R.Rule("C13.Q8", "placeholders are resolved with this profile's prefixes only (shared with C02.P9 / C15.O3)", 1)
+		prefixResolution(c, "C13.Q8")
+	}
+	extras["C14"] = func(c *Ctx) {
+		c.Borrow("C12", "C12.J1", "C14.K7", "the report builder leaves the nodes of a result as the policy produced them: it names them, it does not remove or rewrite location nodes", 3, nil)
+	}
 	extras["C12"] = func(c *Ctx) {
 		discardedErrorFallback(c, "C12.J10")
 		scalarTextGuard(c, "C12.J11")
 		c12DegenerateProfiles(c, "C12.J12", "C12.J13")
+		c12NamesOfEnumValues(c)
+		c12ValidationFoundUnderItsName(c)
+		c.Borrow("C18", "C18.W1", "C12.J14", "a report written to a file is the whole content of that file: the command-line front end truncates what the file held (a shorter report over a longer one leaves a tail that makes the file invalid JSON)", 2, nil)
 	}
 	extras["C15"] = func(c *Ctx) {
 		scalarTextGuard(c, "C15.O9")
 		yamlAliasesRejected(c, "C15.O10")
+		c.Borrow("C01", "C01.R4", "C15.O11", "no operand list of the generator is extended in place while another iteration still uses it (which operand survives would depend on how operands sort, that is on how prefixes and variables are spelled)", 1, func(o Obligation) bool {
+			return strings.Contains(o.Construct, "#append:") || o.Construct == "shared-append-census"
+		})
 	}
 	extras["C17"] = func(c *Ctx) {
 		c.Borrow("C01", "C01.R2", "C17.Z9", "the generators of `and` / `or` hand a negated rule to each other through Negate(), which must return a rule that is not negated: otherwise the two recurse into each other until the stack overflows, which no recover() catches", 2, func(o Obligation) bool {
 			return strings.Contains(o.Construct, "AndRule") || strings.Contains(o.Construct, "OrRule")
 		})
+		c.R.Rule("C17.Z10", "no compilation writes into the shared default prefix table (concurrent compilations would abort the process with `concurrent map writes`, which no recover catches)", 1)
+		prefixResolution(c, "C17.Z10")
 	}
 }
 
@@ -457,6 +476,47 @@ func c13VerbatimNames(c *Ctx) {
 				}
 			}
 			return ""
+		case *ssa.IndexAddr, *ssa.Index:
+			// an entry of a package-level table that is only read (a composite literal): the field of every entry is a constant
+			var base ssa.Value
+			var et types.Type
+			if ia, ok := x.(*ssa.IndexAddr); ok {
+				base = ia.X
+				if pt, ok := ia.Type().Underlying().(*types.Pointer); ok {
+					et = pt.Elem()
+				}
+			} else {
+				base = x.(*ssa.Index).X
+				et = x.(*ssa.Index).Type()
+			}
+			if ld, ok := base.(*ssa.UnOp); ok && ld.Op == token.MUL {
+				base = ld.X
+			}
+			g, ok := base.(*ssa.Global)
+			st, isStruct := et.Underlying().(*types.Struct)
+			if ok && isStruct && idx < st.NumFields() {
+				if gv, ok := g.Object().(*types.Var); ok {
+					if pk := p.AnyPkg(gv.Pkg().Path()); pk != nil {
+						w := &symWalker{p: p, pk: pk, info: pk.TypesInfo, env: map[types.Object]*Sym{}, stack: map[types.Object]bool{}}
+						if tbl := w.globalTable(gv); tbl != nil && tbl.K == symList && len(tbl.Parts) > 0 {
+							allConst := true
+							for _, el := range tbl.Parts {
+								fv, has := el.Fields[st.Field(idx).Name()]
+								if el.K != symStruct || !has {
+									allConst = false
+									continue
+								}
+								if _, isConst := fv.ConstString(); !isConst {
+									allConst = false
+								}
+							}
+							if allConst {
+								return ""
+							}
+						}
+					}
+				}
+			}
 		}
 		return "it is a field of a value whose construction is not recognised (" + sv.String() + ")"
 	}
@@ -987,7 +1047,22 @@ func c12DegenerateProfiles(c *Ctx, ridMsg, ridConn string) {
 		r.Unknown(ridMsg, "message-parser", "", "the function that parses message expressions was not found")
 	}
 	seenMsg, seenConn := map[string]bool{}, map[string]bool{}
-	for _, root := range symRoots(pk) {
+	// (every function is walked as a root of its own: helpers are interpreted to a bounded depth only, and a constructor
+	// call deep under the top of the parser would otherwise be seen with operands that were not evaluated)
+	var roots []*ast.FuncDecl
+	for _, f := range pk.Syntax {
+		for _, d := range f.Decls {
+			if fd, ok := d.(*ast.FuncDecl); ok && fd.Body != nil {
+				roots = append(roots, fd)
+			}
+		}
+	}
+	isTop := map[*ast.FuncDecl]bool{}
+	for _, fd := range symRoots(pk) {
+		isTop[fd] = true
+	}
+	for _, root := range roots {
+		root := root
 		proto := &symWalker{Inline: samePkgInline(pk)}
 		proto.OnCall = func(w *symWalker, call *ast.CallExpr, fn types.Object, args []*Sym, result *Sym) {
 			f, _ := fn.(*types.Func)
@@ -995,8 +1070,8 @@ func c12DegenerateProfiles(c *Ctx, ridMsg, ridConn string) {
 				return
 			}
 			if f == msgParser && len(args) == 1 {
-				if ridMsg == "" {
-					return
+				if ridMsg == "" || !isTop[root] {
+					return // (the text is followed from the functions nobody else in the package calls: from the YAML accessor on)
 				}
 				key := relOf(pk) + "." + root.Name.Name + "/" + w.FuncName() + "#message-text"
 				if seenMsg[key] {
@@ -1542,4 +1617,279 @@ func transitiveRefs(v ssa.Value, depth int) []ssa.Instruction {
 		}
 	}
 	return out
+}
+
+// c12NamesOfEnumValues (J15): the component a trace entry names comes from small tables in the profile package: methods
+// that turn a value of an enumeration (a named integer type with constants) into a word — directly, or through the field
+// of a struct that holds one.  Every such method, evaluated with the enumeration fixed to each of its constants in turn
+// (E-sym case split), returns a non-empty text or panics; none falls into a gap of a table.
+func c12NamesOfEnumValues(c *Ctx) {
+	r, p := c.R, c.P
+	r.Rule("C12.J15", "every value of an enumeration of the profile model has a non-empty name in each table that names it", 2)
+	pk := p.Pkg("internal/parser/profile")
+	if pk == nil {
+		r.Unknown("C12.J15", "package", "", "internal/parser/profile not found")
+		return
+	}
+	// enumerations: named integer types of the package with at least two constants
+	consts := map[*types.Named][]*types.Const{}
+	for _, nme := range pk.Types.Scope().Names() {
+		if cst, ok := pk.Types.Scope().Lookup(nme).(*types.Const); ok {
+			if nt, ok := cst.Type().(*types.Named); ok && nt.Obj().Pkg() == pk.Types {
+				if b, ok := nt.Underlying().(*types.Basic); ok && b.Info()&types.IsInteger != 0 {
+					consts[nt] = append(consts[nt], cst)
+				}
+			}
+		}
+	}
+	n := 0
+	for _, f := range pk.Syntax {
+		for _, d := range f.Decls {
+			fd, ok := d.(*ast.FuncDecl)
+			if !ok || fd.Body == nil || fd.Recv == nil || len(fd.Recv.List) != 1 || len(fd.Recv.List[0].Names) != 1 {
+				continue
+			}
+			if fd.Type.Params != nil && len(fd.Type.Params.List) > 0 {
+				continue
+			}
+			if fd.Type.Results == nil || len(fd.Type.Results.List) != 1 {
+				continue
+			}
+			if tv, ok := pk.TypesInfo.Types[fd.Type.Results.List[0].Type]; !ok || !isStringType(tv.Type) {
+				continue
+			}
+			recv := pk.TypesInfo.Defs[fd.Recv.List[0].Names[0]]
+			if recv == nil {
+				continue
+			}
+			// the enumeration the method speaks about: the receiver itself or one of its fields
+			rt := recv.Type()
+			if pt, ok := rt.Underlying().(*types.Pointer); ok {
+				rt = pt.Elem()
+			}
+			var enum *types.Named
+			field := ""
+			if nt, ok := rt.(*types.Named); ok && len(consts[nt]) >= 2 {
+				enum = nt
+			} else if st, ok := rt.Underlying().(*types.Struct); ok {
+				for i := 0; i < st.NumFields(); i++ {
+					if nt, ok := st.Field(i).Type().(*types.Named); ok && len(consts[nt]) >= 2 {
+						enum, field = nt, st.Field(i).Name()
+					}
+				}
+			}
+			if enum == nil {
+				continue
+			}
+			key := relOf(pk) + "." + recvName(fd) + "." + fd.Name.Name
+			for _, cst := range consts[enum] {
+				cst := cst
+				var rets []*Sym
+				paniced := false
+				proto := &symWalker{Inline: samePkgInline(pk)}
+				proto.AssumeFn = func(s *Sym) *Sym {
+					switch {
+					case field == "" && s.K == symVar && s.Obj == recv:
+						return &Sym{K: symConst, C: cst.Val()}
+					case field != "" && s.K == symField && s.Name == field && s.X != nil && s.X.K == symVar && s.X.Obj == recv:
+						return &Sym{K: symConst, C: cst.Val()}
+					}
+					return nil
+				}
+				proto.OnReturn = func(w *symWalker, ret *ast.ReturnStmt, results []*Sym) {
+					if w.depth == 0 && len(results) == 1 {
+						rets = append(rets, results[0])
+					}
+				}
+				proto.OnCall = func(w *symWalker, call *ast.CallExpr, fn types.Object, args []*Sym, result *Sym) {
+					if id, ok := call.Fun.(*ast.Ident); ok && id.Name == "panic" && w.depth == 0 {
+						paniced = true
+					}
+				}
+				p.SymWalk(pk, fd, proto, nil)
+				if len(rets) == 0 && !paniced {
+					continue
+				}
+				n++
+				empty := false
+				for _, v := range rets {
+					if cs, ok := v.ConstString(); ok && cs == "" {
+						empty = true
+					}
+				}
+				r.Check(!empty, "C12.J15", key+"#"+cst.Name(), p.Pos(fd.Pos()), "named (or rejected with a panic)", "for "+cst.Name()+" the method returns the empty text: a table has no entry for this value, so the component of a trace entry (or the word in the generated code) is empty")
+			}
+		}
+	}
+	if n == 0 {
+		r.Unknown("C12.J15", "enumerations", "", "no method that names the values of an enumeration was evaluated")
+	}
+}
+
+// c12ValidationFoundUnderItsName (J16): "every result names a validation defined in the profile".  The name a result
+// carries is the first argument of the function that parses one validation; the node it parses is looked up in the
+// validations mapping.  The two travel together, so the node must be what Get(<that very name>) returned: a lenient
+// second lookup under another spelling would report results under a name the profile does not define.
+func c12ValidationFoundUnderItsName(c *Ctx) {
+	r, p := c.R, c.P
+	r.Rule("C12.J16", "a validation is parsed under the key it was found under", 1)
+	pk := p.Pkg("internal/parser/profile")
+	if pk == nil {
+		return
+	}
+	n := 0
+	seen := map[string]bool{}
+	var all []*ast.FuncDecl
+	for _, f := range pk.Syntax {
+		for _, d := range f.Decls {
+			if fd, ok := d.(*ast.FuncDecl); ok && fd.Body != nil {
+				all = append(all, fd)
+			}
+		}
+	}
+	for _, root := range all {
+		proto := &symWalker{Inline: func(fn *types.Func) bool { return false }}
+		proto.OnCall = func(w *symWalker, call *ast.CallExpr, fn types.Object, args []*Sym, result *Sym) {
+			f, _ := fn.(*types.Func)
+			if f == nil || f.Pkg() != pk.Types || len(args) < 2 {
+				return
+			}
+			sig := f.Type().(*types.Signature)
+			if sig.Params().Len() < 2 || !isStringType(sig.Params().At(0).Type()) || sig.Params().At(0).Name() != "name" || typeName(derefType(sig.Params().At(1).Type())) != "Yaml" {
+				return
+			}
+			key := relOf(pk) + "." + w.FuncName() + "#" + f.Name()
+			if seen[key] {
+				return
+			}
+			seen[key] = true
+			n++
+			name, node := args[0], args[1]
+			ok := node.K == symCall && strings.HasSuffix(node.Fn, ".Get") && len(node.Parts) == 1 && node.Parts[0].String() == name.String()
+			r.Check(ok, "C12.J16", key, p.Pos(call.Pos()), "the node parsed is Get(name) of the name handed over with it", "the validation handed to "+f.Name()+" under the name "+shortFormat(name.String())+" is "+shortFormat(node.String())+", not the node found under exactly that name: results are reported under a name the profile does not define")
+		}
+		p.SymWalk(pk, root, proto, nil)
+	}
+	if n == 0 {
+		r.Unknown("C12.J16", "validation-parser", "", "no call that hands a validation's name and node on together was found")
+	}
+}
+
+func derefType(t types.Type) types.Type {
+	if pt, ok := t.Underlying().(*types.Pointer); ok {
+		return pt.Elem()
+	}
+	return t
+}
+
+// c16RuntimeConstants (X11, X12): two more facts about the generated interpreter that "accepted exactly when the whole
+// string is a sentence" rests on.  X11: end of input is the decoder's (RuneError, width 0) — or, while reading, (RuneError,
+// 1 byte) for an invalid byte; a test of the rune alone takes a well-formed U+FFFD in the string for the end of input, and
+// the anchor `!.` then accepts a string with a tail.  X12: the interpreter has no budget of its own: the only constant
+// ever stored into the expression budget is "unlimited" (math.MaxUint64), so no sentence is rejected for its size.
+func c16RuntimeConstants(c *Ctx) {
+	r, p := c.R, c.P
+	r.Rule("C16.X11", "the parser runtime recognises end of input by rune and width together", 2)
+	r.Rule("C16.X12", "the parser runtime has no expression budget unless the caller sets one", 1)
+	pk := p.Pkg("internal/parser/path")
+	if pk == nil {
+		r.Unknown("C16.X11", "runtime", "", "package internal/parser/path not found")
+		return
+	}
+	info := pk.TypesInfo
+	isRuneError := func(e ast.Expr) bool {
+		sel, ok := ast.Unparen(e).(*ast.SelectorExpr)
+		if !ok || sel.Sel.Name != "RuneError" {
+			return false
+		}
+		if tv, ok := info.Types[sel]; ok && tv.Value != nil {
+			return tv.Value.ExactString() == "65533"
+		}
+		return false
+	}
+	n11, n12 := 0, 0
+	for _, f := range pk.Syntax {
+		var stack []ast.Node
+		ast.Inspect(f, func(nd ast.Node) bool {
+			if nd == nil {
+				stack = stack[:len(stack)-1]
+				return true
+			}
+			stack = append(stack, nd)
+			switch x := nd.(type) {
+			case *ast.BinaryExpr:
+				if (x.Op != token.EQL && x.Op != token.NEQ) || !(isRuneError(x.X) || isRuneError(x.Y)) {
+					return true
+				}
+				n11++
+				// the whole boolean expression this comparison is part of
+				top := ast.Expr(x)
+				for i := len(stack) - 2; i >= 0; i-- {
+					switch pe := stack[i].(type) {
+					case *ast.ParenExpr:
+						top = pe
+						continue
+					case *ast.BinaryExpr:
+						if pe.Op == token.LAND || pe.Op == token.LOR {
+							top = pe
+							continue
+						}
+					}
+					break
+				}
+				widthTested := false
+				ast.Inspect(top, func(q ast.Node) bool {
+					be, ok := q.(*ast.BinaryExpr)
+					if !ok || (be.Op != token.EQL && be.Op != token.NEQ) {
+						return true
+					}
+					for _, pair := range [][2]ast.Expr{{be.X, be.Y}, {be.Y, be.X}} {
+						name := ""
+						switch w := ast.Unparen(pair[0]).(type) {
+						case *ast.SelectorExpr:
+							name = w.Sel.Name
+						case *ast.Ident:
+							name = w.Name
+						}
+						if name != "w" && name != "n" && name != "width" && name != "size" {
+							continue
+						}
+						if tv, ok := info.Types[pair[1]]; ok && tv.Value != nil && (tv.Value.ExactString() == "0" || tv.Value.ExactString() == "1") {
+							widthTested = true
+						}
+					}
+					return true
+				})
+				key := relOf(pk) + "." + enclosingFuncName(pk, x.Pos()) + "#rune-error-test"
+				r.Check(widthTested, "C16.X11", key, p.Pos(x.Pos()), "the rune is compared together with the width the decoder reported", "a rune is compared with utf8.RuneError without the decoder's width: U+FFFD written in the string is taken for the end of input (or for an invalid byte), so `core.name \uFFFD / anything` is accepted as `core.name`")
+			case *ast.AssignStmt:
+				for i, l := range x.Lhs {
+					sel, ok := ast.Unparen(l).(*ast.SelectorExpr)
+					if !ok || sel.Sel.Name != "maxExprCnt" || i >= len(x.Rhs) {
+						continue
+					}
+					tv, ok := info.Types[x.Rhs[i]]
+					if !ok || tv.Value == nil {
+						continue // a value handed in by the caller (the MaxExpressions option)
+					}
+					n12++
+					r.Check(tv.Value.ExactString() == "18446744073709551615", "C16.X12", relOf(pk)+"."+enclosingFuncName(pk, x.Pos())+"#budget", p.Pos(x.Pos()), "the default budget is unlimited", "the expression budget is set to the constant "+tv.Value.ExactString()+": a path that is a sentence of the grammar is rejected once it is long or deeply parenthesised enough")
+				}
+			case *ast.KeyValueExpr:
+				if id, ok := x.Key.(*ast.Ident); ok && id.Name == "maxExprCnt" {
+					if tv, ok := info.Types[x.Value]; ok && tv.Value != nil {
+						n12++
+						r.Check(tv.Value.ExactString() == "18446744073709551615" || tv.Value.ExactString() == "0", "C16.X12", relOf(pk)+"."+enclosingFuncName(pk, x.Pos())+"#budget-literal", p.Pos(x.Pos()), "no budget of its own", "the expression budget is initialised to the constant "+tv.Value.ExactString())
+					}
+				}
+			}
+			return true
+		})
+	}
+	if n11 == 0 {
+		r.Unknown("C16.X11", "rune-error-tests", "", "no comparison with utf8.RuneError found in the parser runtime")
+	}
+	if n12 == 0 {
+		r.Unknown("C16.X12", "budget", "", "no constant store into the expression budget found in the parser runtime")
+	}
 }
